@@ -56,15 +56,15 @@ SURVIVORS = {
  'c15_trace_grow': ('functions.py', "    n_word = int(np.ceil(np.log2(num_of_additions))) + a.n_word", "    n_word = int(np.floor(np.log2(num_of_additions))) + a.n_word"),
  # ---- C16 ---------------------------------------------------------------------------
  'c16_le': ('objects.py', "        return self.get_val() <= x", "        return self.get_val() < x"),
- 'c16_astype_int': ('objects.py', "                    val = raw_val // self._get_conv_factor()", "                    val = np.trunc(raw_val / self._get_conv_factor())"),
+ 'c16_astype_int': ('objects.py', "                    val = np.asarray(raw_val // conv_factor)    # (a single `item` is a python number)", "                    val = np.asarray(np.trunc(raw_val / conv_factor))    # (a single `item` is a python number)"),
  'c16_bool': ('objects.py', "            return bool(self.get_val())", "            return bool(self.astype(int))"),
- 'c16_uraw': ('objects.py', "        return np.where(self.val < 0, (1 << self.n_word) + self.val, self.val)", "        return np.where(self.val < 0, (1 << (self.n_word-1)) + self.val, self.val)"),
+ 'c16_uraw': ('objects.py', "        return np.where(val < 0, (1 << self.n_word) + val, val)", "        return np.where(val < 0, (1 << (self.n_word-1)) + val, val)"),
  # ---- C17 ---------------------------------------------------------------------------
  'c17_upper_sign': ('objects.py', "            self.upper = self.scale * self.upper + self.bias", "            self.upper = abs(self.scale) * self.upper + self.bias"),
  # ---- C18 ---------------------------------------------------------------------------
  'c18_clip_float': ('objects.py', "                val = np.clip(new_val, val_min, val_max)", "                val = np.clip(new_val.astype(float), val_min, val_max).astype(object)"),
  # ---- C19 ---------------------------------------------------------------------------
- 'c19_mul_bits': ('functions.py', "        x_val, y_val = _raw_operands(x, y, x.n_word + y.n_word + 1)", "        x_val, y_val = _raw_operands(x, y, max(x.n_word, y.n_word) + 1)"),
+ 'c19_mul_bits': ('functions.py', "        x_val, y_val = _raw_operands(x, y, x.n_word + y.n_word + 1 + max(n_frac - x.n_frac - y.n_frac, 0))", "        x_val, y_val = _raw_operands(x, y, max(x.n_word, y.n_word) + 1 + max(n_frac - x.n_frac - y.n_frac, 0))"),
  'c19_store_mag': ('objects.py', "                _val_mag = max(_val_mag, max(_val_mag, 1) * conv_factor)", "                _val_mag = max(_val_mag, 1)"),
  # ---- C20 ---------------------------------------------------------------------------
  'c20_shallow_like': ('objects.py', "            if isinstance(like, Fxp):\n                self.__dict__ = copy.deepcopy(like.__dict__)", "            if isinstance(like, Fxp):\n                self.__dict__ = copy.copy(like.__dict__)"),
